@@ -137,6 +137,9 @@ def get_definition_location(project, source_code, offset, resource=None, maxfixe
     if pyname is not None:
         module, lineno = pyname.get_definition_location()
         if module is not None:
+            if lineno is not None and module.get_module() is fixer.get_pymodule():
+                # the fixed module may contain inserted lines
+                lineno = fixer.original_lineno(lineno)
             return module.get_module().get_resource(), lineno
     return (None, None)
 
